@@ -6,7 +6,7 @@ THEOREMS = ['FlexVerif.doWrap_start', 'FlexVerif.inputOp_start']
 
 def run(ctx):
     q1, q2, q3 = {'quick': (64, 48, 32), 'thorough': (600, 400, 200)}[ctx.tier]
-    plan = [('eof', q1, 8), ('include', q3, 6)]
+    plan = [('eof', q1, 8), ('include', q3, 6), ('wrapbol', q3, 6)]
     return rtprop.run(ctx, THEOREMS, plan, 'exploration',
                       'end of input: up to three sources chained by yywrap, <<EOF>> actions per start condition, yyinput at end of input, repeated yylex calls; nested buffers ended by <<EOF>> actions or by a yywrap() that pops the buffer and returns 0' + '. Kernel-checked theorems about the abstract scanner (listed under obligations) + differential '
                       'correspondence of the real generated scanner (ASan/UBSan build) with that model on generated cases.')
